@@ -143,6 +143,18 @@ def slice_grid_search(log):
                     wants.append('OK %r' % xs[slice(st, sp, step)])
         exprs.append('len(%r)' % xs)
         wants.append('OK %d' % n)
+        tp = tuple(xs)
+        for c in (xs, tp):
+            exprs.append('bool(%r)' % (c,))
+            wants.append('OK %s' % bool(c))
+        exprs.append('len(%r)' % (tp,))
+        wants.append('OK %d' % n)
+        for i in list(range(-8, 9)):
+            exprs.append('%r[%d]' % (tp, i))
+            try:
+                wants.append('OK %r' % tp[i])
+            except IndexError:
+                wants.append('ERR')
         for i in list(range(-8, 9)):
             exprs.append('%r[%d]' % (xs, i))
             try:
